@@ -19,6 +19,16 @@ def trains(case):
         if any(not (t0 <= s <= t1) for s in tr) or any(a >= b for a, b in zip(tr, tr[1:])):
             raise HarnessError("generator produced an invalid spike train %r on [%r, %r]"
                                % (tr, t0, t1))
+    if case.get("int_times"):
+        # the caller writes whole-number times as Python ints / an integer array
+        out = []
+        for k, tr in enumerate(case["trains"]):
+            if tr and all(float(s).is_integer() for s in tr):
+                arg = [int(s) for s in tr] if k % 2 == 0 else np.array([int(s) for s in tr])
+            else:
+                arg = np.array(tr, dtype=float)
+            out.append(pyspike.SpikeTrain(arg, [case["t0"], case["t1"]]))
+        return out
     return [pyspike.SpikeTrain(np.array(tr, dtype=float), [case["t0"], case["t1"]])
             for tr in case["trains"]]
 
